@@ -209,6 +209,33 @@ pub fn c01_stream_case(rec: &mut Rec, rng: &mut Rng, stream: &[u8], limit: usize
 
 pub fn c01(rec: &mut Rec, rng: &mut Rng, thorough: bool) {
     regress_f1(rec);
+    // a body that ends exactly where a full 1024-byte read ends (head in a read of its own, Content-Length a multiple of
+    // the window): the request is delivered by that very read — the stream may end or pause right there
+    for m in [1usize, 2, 3] {
+        for tail in [false, true] {
+            rec.case("body-ends-on-a-full-read");
+            rec.nontrivial();
+            let n = 1024 * m;
+            let head = format!("PUT /full HTTP/1.1\r\nContent-Length: {}\r\n\r\n", n).into_bytes();
+            let body = gen::body_bytes(rng, n);
+            let mut d = ConnDriver::new(rec, 51200);
+            d.recv(rec, &head, 0);
+            for ch in body.chunks(1024) {
+                d.recv(rec, ch, 0);
+            }
+            let del = d.popall(rec);
+            if del.len() != 1 || !del[0].text_nofiles.contains(&format!("body={} ", hx(&body))) {
+                rec.oracle_fail("C01", &format!("a body of {} bytes fed in reads of exactly 1024: {} requests delivered once the last body byte was read", n, del.len()), &d.log);
+            }
+            if tail {
+                d.recv(rec, b"GET /next HTTP/1.1\r\n\r\n", 0);
+                let del2 = d.popall(rec);
+                if del2.len() != 1 {
+                    rec.oracle_fail("C01", "the request behind a body that ended on a full read was not delivered on its own", &d.log);
+                }
+            }
+        }
+    }
     for _ in 0..(if thorough { 3000 } else { 120 }) {
         two_connections_case(rec, rng, "C01");
     }
@@ -387,7 +414,7 @@ pub fn c02(rec: &mut Rec, rng: &mut Rng, thorough: bool) {
         }
     }
     // numeric edge values of Content-Length
-    for v in ["0", "007", "4294967295", "4294967296", "-1", "", "+3", "3", " 3 ", "3 3"] {
+    for v in ["0", "007", "4294967295", "4294967296", "-1", "", "+3", "3", " 3 ", "3 3", "00000000003", "+0000000003", "000000000000000000003"] {
         for limit in [0usize, 3, 51200, 4294967295] {
             rec.case("content-length-edge");
             rec.nontrivial();
@@ -1187,6 +1214,30 @@ fn step_two(rec: &mut Rec, d: &mut ConnDriver, chunk: &[u8], act: u8, t: &mut Ve
     }
 }
 
+/// descriptors around a rejected request: those that arrived with the rejected input are closed BY the read that reports
+/// the error (not by a later one), and descriptors arriving with the next request are delivered with it as on a new
+/// connection
+pub fn c11_descriptors_around_rejection(rec: &mut Rec, rng: &mut Rng) {
+    rec.case("descriptors-around-rejection");
+    rec.nontrivial();
+    let mut d = ConnDriver::new(rec, 51200);
+    d.tokens.descending = rng.chance(1, 2);
+    let before = d.tokens.next;
+    d.recv(rec, b"BOGUS /x HTTP/1.1\r\n\r\n", 2);
+    let rejected_fds: Vec<i32> = d.tokens.by_fd.iter().filter(|(_, t)| **t >= before).map(|(fd, _)| *fd).collect();
+    if rejected_fds.iter().any(|fd| Tokens::is_open(*fd)) {
+        rec.oracle_fail("C11", "descriptors that arrived with a rejected request are still open after the read that reported the error", &d.log);
+    }
+    d.popall(rec);
+    let before2 = d.tokens.next;
+    d.recv(rec, b"GET /after HTTP/1.1\r\n\r\n", 2);
+    let want: Vec<usize> = (before2..d.tokens.next).collect();
+    let del = d.popall(rec);
+    if del.len() != 1 || del[0].files != want {
+        rec.oracle_fail("C11", &format!("the request after a rejected one arrived with descriptors {:?} and was delivered with {:?}", want, del.iter().map(|x| x.files.clone()).collect::<Vec<_>>()), &d.log);
+    }
+}
+
 /// MANY rejected requests on one connection (nothing may accumulate across them), then a well-formed request fed in
 /// pieces that cut inside its header lines: same transcript as on a new connection, and no panic.
 fn c11_many_rejections(rec: &mut Rec, rng: &mut Rng, k: usize, hdr_lines: usize, value_len: usize) {
@@ -1236,6 +1287,9 @@ fn c11_many_rejections(rec: &mut Rec, rng: &mut Rng, k: usize, hdr_lines: usize,
 }
 
 pub fn c11(rec: &mut Rec, rng: &mut Rng, thorough: bool) {
+    for _ in 0..4 {
+        c11_descriptors_around_rejection(rec, rng);
+    }
     regress_f1(rec);
     // many rejections: few / many header lines, short / long values (up to ~100 KiB of rejected header bytes in all)
     for (k, lines, vlen) in [(40usize, 2usize, 8usize), (200, 1, 4), (150, 4, 200), (30, 20, 40)] {
